@@ -29,11 +29,6 @@ Inductive gprog :=
 | GRaiseP (e : exn)
 | GReraise.
 
-(* g.ayield(d) =  async def ayield(self, value): return await self.monitor.oob(value)
-   where oob() is a generator-based coroutine; inside n pass-through coroutines *)
-Definition ayield_frames (n : nat) (d : val) : coro :=
-  Nat.iter n (fun c => await_ KCoro c Ret Raise) (await_ KGen (yield_ d Ret Raise) Ret Raise).
-
 (* [nested] = false: the native reading (`yield`), true: the asynkit rendering *)
 Fixpoint gdenote (nested : bool) (p : gprog) (cur : option exn) (kn : coro) (kr : val -> coro)
                  (ke : exn -> coro) : coro :=
